@@ -155,15 +155,26 @@ theorem pauseResumeWriting_plain (c : Chan) (h : CInv c) : Plain c (pauseResumeW
   rw [pauseResumeWriting_acts] at ha
   cases ha
 
+theorem closeSendEof_sends (c : Chan) : ∀ a ∈ (closeSendEof c).acts, ∃ rc m, a = Act.send rc m := by
+  simp only [closeSendEof]
+  intro a
+  split
+  · intro ha
+    rcases List.mem_append.mp ha with y | y
+    · exact sendPkt_sends _ _ a y
+    · exact closeSend_sends _ a y
+  · exact closeSend_sends _ a
+
 theorem flushSendTail_plain (c : Chan) (h : CInv c) : Plain c (flushSendTail c) := by
-  refine plain_of_fields (flushSendTail_inv c h) ?_ (by fields [flushSendTail, closeSend])
-    (by fields [flushSendTail, closeSend]) (by fields [flushSendTail, closeSend]) (by fields [flushSendTail, closeSend])
+  refine plain_of_fields (flushSendTail_inv c h) ?_ (by fields [flushSendTail, closeSendEof, closeSend])
+    (by fields [flushSendTail, closeSendEof, closeSend]) (by fields [flushSendTail, closeSendEof, closeSend])
+    (by fields [flushSendTail, closeSendEof, closeSend])
   simp only [flushSendTail]
   intro a
   split
   · split
     · exact sendPkt_sends _ _ a
-    · exact closeSend_sends _ a
+    · exact closeSendEof_sends _ a
     · simp [R.ok]
   · simp [R.ok]
 
@@ -377,7 +388,7 @@ theorem close_plain (c : Chan) (h : CInv c) : Plain c (close c) := by
   unfold close
   refine plain_andThen ?_ ?_
   · split
-    · have hi : CInv { c with sendSt := .closePending } := by
+    · have hi : CInv { c with sendEofPending := decide (c.sendSt = .eofPending), sendSt := .closePending } := by
         obtain ⟨h1, h2, h3, h4, h5, h6, h7, h8, h9, h10, h11, h12, h13, h14⟩ := h
         constructor <;> grind
       exact (flushSendBuf_plain _ hi).cast rfl rfl rfl rfl
@@ -722,7 +733,7 @@ theorem pauseResumeWriting_wakeVal (c : Chan) : (pauseResumeWriting c).c.wakeVal
   fields [pauseResumeWriting]
 
 theorem flushSendTail_wakeVal (c : Chan) : (flushSendTail c).c.wakeVal = c.wakeVal := by
-  fields [flushSendTail, closeSend]
+  fields [flushSendTail, closeSendEof, closeSend]
 
 theorem flushSendBuf_wakeVal (c : Chan) : (flushSendBuf c).c.wakeVal = c.wakeVal := by
   unfold flushSendBuf
